@@ -98,26 +98,28 @@ VERIFY_UNUSED = [UnusedName()]
 
 
 def series_site_audit():
-    """Syntactic call-site obligation on generators.Series: every object it names itself (a literal or computed name passed
-    to m.add / to the constructor of what is added) gets that name from _unused_name(m, ...).  -> list of offenders"""
+    """Syntactic call-site obligation on generators.Series and generators.Wrapper: every object they name themselves (a
+    name passed to <module>.add, or to the constructor of what is added) gets that name from _unused_name(<module>, ...).
+    -> (number of naming sites, offenders)"""
     import ast
     from pyvc import loader
     from hdl21.generators import Series
-    ext = loader.extract_func(Series.func)
     bad = []
     n_sites = 0
-    for n in ast.walk(ext.node):
-        if not (isinstance(n, ast.Call) and isinstance(n.func, ast.Attribute) and n.func.attr == "add"
-                and isinstance(n.func.value, ast.Name) and n.func.value.id == "m"):
-            continue
-        names = [k.value for k in n.keywords if k.arg == "name"]
-        for a in n.args:
-            if isinstance(a, ast.Call):
-                names += [k.value for k in a.keywords if k.arg == "name"]
-        for nm in names:
-            n_sites += 1
-            ok = isinstance(nm, ast.Call) and getattr(nm.func, "id", "") == "_unused_name" and nm.args and \
-                getattr(nm.args[0], "id", "") == "m"
-            if not ok:
-                bad.append((ext.path, n.lineno, ast.unparse(nm)))
+    for ext, var in ((loader.extract_func(Series.func), "m"), (loader.extract("hdl21.generators:Wrapper"), "wrapper")):
+        for n in ast.walk(ext.node):
+            if not (isinstance(n, ast.Call) and isinstance(n.func, ast.Attribute) and n.func.attr == "add"
+                    and isinstance(n.func.value, ast.Name) and n.func.value.id == var):
+                continue
+            names = [k.value for k in n.keywords if k.arg == "name"]
+            for a in n.args:
+                for sub in ast.walk(a):
+                    if isinstance(sub, ast.Call):
+                        names += [k.value for k in sub.keywords if k.arg == "name"]
+            for nm in names:
+                n_sites += 1
+                ok = isinstance(nm, ast.Call) and getattr(nm.func, "id", "") == "_unused_name" and nm.args and \
+                    getattr(nm.args[0], "id", "") == var
+                if not ok:
+                    bad.append((ext.path, n.lineno, ast.unparse(nm)))
     return n_sites, bad
